@@ -218,11 +218,14 @@ func main() {
 				panic(r)
 			}
 		}()
-		if env.Replay != nil && replayConcExtra(env, rep, *prop) {
+		if env.Replay != nil && (replayFine(env, rep, *prop) || replayConcExtra(env, rep, *prop)) {
 			return
 		}
 		f(env, rep)
 		if env.Replay == nil {
+			if n := exploreFine(env, rep, *prop); n > 0 {
+				rep.add("statement_level_concurrency_executions", int64(n))
+			}
 			if n := runConcExtras(env, rep, *prop); n > 0 {
 				rep.add("shared_concurrency_scenarios_executions", int64(n))
 			}
